@@ -673,7 +673,16 @@ func (f *frame) symd0(v ssa.Value, d int) string {
 	case *ssa.Const:
 		return an.Canon(x)
 	case *ssa.Convert:
-		return "conv<" + types.TypeString(x.Type(), shortq) + ">(" + f.symd(x.X, d+1) + ")"
+		inner := f.symd(x.X, d+1)
+		// an integer literal converted to an integer type that holds it is that literal
+		if k, err := strconv.ParseInt(inner, 10, 64); err == nil {
+			if b, isB := x.Type().Underlying().(*types.Basic); isB && b.Info()&types.IsInteger != 0 {
+				if r, okR := intRanges[b.Name()]; okR && float64(k) >= r[0] && float64(k) <= r[1] {
+					return inner
+				}
+			}
+		}
+		return "conv<" + types.TypeString(x.Type(), shortq) + ">(" + inner + ")"
 	case *ssa.UnOp:
 		if x.Op == token.MUL {
 			// local symbolic memory first
